@@ -201,6 +201,8 @@ class VecEval:
                     raise Unsupported('slice store shape')
                 for k, x in zip(pos, vals):
                     base[k] = x
+            elif isinstance(i, tuple) and len(i) == 2 and isinstance(i[0], int) and isinstance(i[1], int) and not isinstance(i[0], bool) and isinstance(base[i[0]], list):
+                base[i[0]][i[1]] = v
             elif isinstance(i, tuple) and len(i) == 2 and isinstance(i[0], slice) and i[0] == slice(None) and isinstance(i[1], int) and (not base or isinstance(base[0], list)):
                 col = list(v) if isinstance(v, (tuple, list)) else [v] * len(base)
                 if len(col) != len(base):
